@@ -1,6 +1,6 @@
 #!/usr/bin/env python3
 """ Writes /verif/seeded/<ID>-<X>/meta.json and /verif/seeded/INDEX.md from the table below and
-the RESULT lines tools/seeded.sh left under /tmp/seed/results (when still present). """
+seeded/results.json (return codes of the quick checks against each change). """
 import json, re, glob
 from pathlib import Path
 V = Path(__file__).resolve().parent.parent
@@ -49,6 +49,10 @@ T = {
 
 # round 2 (C/D): written by fresh sub-agents told to avoid the places of round 1
 T.update({
+ 'C01-C': ('C01', 'fusion loop of call_variant_peptides_wrapper no longer copies the transcript\'s variant series before truncating it at the breakpoint', 'a donor transcript with >= 2 fusions (or fusion + circRNA) and a point variant downstream of the first breakpoint: later units are built without it', [], []),
+ 'C01-D': ('C01', 'find_mnvs_from_adjacent_variants: the search for an adjacent partner stops at the first record that is not adjacent (records that start before the end of the first are no longer skipped)', 'two adjacent SNVs with a third record overlapping the first one sorted between them (same-position alleles, an indel at the first SNV): the merged MNV haplotype is missing', [], []),
+ 'C02-C': ('C02', 'merge_nodes_routes: routes skipped because of --max-variants-per-node are left in the cleavage graph', 'a binding limit (more variants in one cleavage-graph route than --max-variants-per-node, e.g. 3 SNVs in one tryptic peptide with the limit 2, or the timeout-driven retries): fragments that start or end at a variant boundary are reported', [], []),
+ 'C02-D': ('C02', 'PVGOrf.location_is_at_least_one_loop_downstream: `i >= j` became `i > j`', 'circRNA whose ORF runs round the circle more than once + a variant whose last base is exactly the first base of the cleavage-graph node that holds the start codon + a second variant in the codon in front that removes the cleavage site: peptides that use the variant in the second round but not in the first', [], []),
  'C03-C': ('C03', 'PVGNode.get_cleavage_gain_variants: `is not None` dropped, a pattern starting at node index 0 counts as no pattern', 'cleavage site gained through a look-behind residue (trypsin WKP/MRP) that is the first residue after another site + a second variant in the downstream peptide: header omits the site-creating SNV', [], []),
  'C03-D': ('C03', 'create_mnv_from_adjacent stores the gene id as TRANSCRIPT_ID', 'AS insertion/substitution (retained intron) + two adjacent SNVs inside the inserted region merged as MNV: header ids become <gene>-<id>', [], []),
  'C04-C': ('C04', 'iter_enzymatic_cleave_sites collects exception matches with start() instead of end()', 'trypsin exception in force + canonical protein with an exception motif + a non-canonical source reproducing a peptide at that site: canonical peptide written', ['C04', 'C10', 'C12'], []),
@@ -86,26 +90,25 @@ T.update({
  'C20-C': ('C20', 'shuffle_sequence appends a single residue instead of the tail slice', 'method shuffle + target ending in >= 2 consecutive fixed positions', [], []),
  'C20-D': ('C20', 'suffix decoy header built from seq.id', '--decoy-string-position suffix + header containing blanks', [], []),
 })
-res = {}
-for f in glob.glob('/tmp/seed/results/batch*.log'):
-    for line in open(f):
-        m = re.match(r'RESULT (\S+) (.*)', line)
-        if m:
-            res[m.group(1)] = m.group(2)
+# results of the confirmation / re-verification runs (tools/seeded.sh, tools/seeded_recheck.py)
+RES = V/'seeded'/'results.json'
+res = json.loads(RES.read_text()) if RES.exists() else {}
 rows = []
 for key, (prop, change, needs, caught, missed) in sorted(T.items()):
     d = V/'seeded'/key
     if not (d/'patch.diff').exists():
         continue
-    if key in res:
-        got = dict(x.split(':rc=') for x in res[key].split('checks:')[-1].split())
-        auto_c = [k for k, v in got.items() if v == '1']
-        caught = sorted(set(caught) | set(auto_c))
-        missed = sorted((set(missed) | {k for k, v in got.items() if v == '0'}) - set(caught))
+    got = dict(res.get(key, {}).get('checks', {}))
+    for k in caught:
+        got.setdefault(k, 1)
+    for k in missed:
+        got.setdefault(k, 0)
+    caught = sorted(k for k, v in got.items() if v == 1)
+    missed = sorted(k for k, v in got.items() if v != 1)
     meta = dict(id=key, property_broken=prop, change=change, needs_to_manifest=needs,
         demonstration='demo.py: exits 1 with patch.diff applied to /repo HEAD, 0 without (run from the checkout root with /venv/bin/python)',
         confirmed_by='tools/seeded.sh: scratch worktree of /repo HEAD; demo on the clean tree (exit 0), git apply patch.diff, demo (exit 1), full pytest suite compared with BASELINE.json stable_pass (no stable test lost); then `VERIF_REPO=<worktree> ./run.py check <ID> --tier quick` for the listed checks',
-        last_result=res.get(key, '(see git history of this file)'),
+        checked_against_repo_commit=res.get(key, {}).get('applies_at'),
         caught_by_quick_checks=caught, not_caught_by=missed)
     (d/'meta.json').write_text(json.dumps(meta, indent=1) + '\n')
     rows.append(f"| {key} | {prop} | {change} | {needs} | {', '.join(caught)} | {', '.join(missed) or '-'} |")
